@@ -124,6 +124,14 @@ CHECKS = {
         text="1..4 (thorough 5) caches x every assignment of hit kinds (incl. falsy hits) / miss x every read in positional and keyword style and every key-collection form: caches consulted in order, first hit returned, nothing consulted after it; every mutator x every combination of given/omitted arguments: exactly one call on cache 0 with the caller's own arguments, never a fallback cache; every read followed by every mutator on one long-lived FallbackClient; the same with real Clients over the reference server.",
         note=TB + "What FallbackClient returns when every cache misses, and its close/stats/quit, are outside the statement.",
     ),
+    "C12": dict(
+        engine="input-enumerator",
+        level="exploration",
+        technique="bounded-exhaustive enumeration of server sets x key sets x configurations on one long-lived real HashClient over simulated servers; oracle = per-server command logs vs an independent rendezvous rule",
+        design_ref="DESIGN.md section 3 / C12",
+        text="5 server sets (1..5 servers, TCP and UNIX mixed) x all 256 subsets of an 8-key universe (str, bytes, (server_key, key) pairs; reduced for some configurations in quick) plus sets of 10/25/50 keys x key_prefix {none, p:} x use_pooling; script per case: set_many, get_many, gets_many, per key get/gets/touch, set/incr/get_many/delete/get, delete_many; plus the aliasing scenario (same item key plain and under a server key, both orders). Each key's command must reach exactly once the server the rule assigns to its routing key; get_many == per-key gets; results keyed by the caller's inner keys.",
+        note=TB + "A str key and the bytes key with the same text are different routing keys (the rule formats the raw key).",
+    ),
 }
 
 PENDING = "check not built yet in this session; planned engine and oracle are in DESIGN.md section 3"
@@ -134,7 +142,7 @@ ENGINES = [
      "serves_properties": ["C05", "C09", "C11", "C13"],
      "kind_free_text": "explicit-state BFS: a state is the event history reaching it, rebuilt on fresh real objects; canonical form de-duplicates; every transition runs the implementation"},
     {"name": "input-enumerator", "path": "checks/c02.py, checks/c20.py (and c14, c15, c17, c18)",
-     "serves_properties": ["C02", "C14", "C15", "C17", "C18", "C20"],
+     "serves_properties": ["C02", "C12", "C14", "C15", "C17", "C18", "C20"],
      "kind_free_text": "nested loops over a finite, explicitly listed input space; the real function is called once per element and compared with an independent reference"},
     {"name": "segmentation-enumerator", "path": "checks/c03.py", "serves_properties": ["C03"],
      "kind_free_text": "bounded-exhaustive enumeration of recv() segmentations of reference reply streams"},
